@@ -14,7 +14,7 @@ The models describe the repository **after** the five `fix:` commits of this pro
 F09 (`add_phrase`/`update_phrase` lift the tombstone), F11 (`Trie::lookup_first_n_phrases` truncates),
 F10 (8e6d504: a pending entry replaces the persisted entry of the same key in `entries()` and in
 lookups), MaxCodePointPhrase (2c45871: a lookup scans *all* pending phrases of the syllables) and
-F36 (097161a: a prefix lookup is answered from the merged view of `entries()`, every pending / tombstone
+F36 (c3d9fb2: a prefix lookup is answered from the merged view of `entries()`, every pending / tombstone
 filter keyed by the entry's own key, restricted to the keys that match the query per syllable).
 
 Result in one paragraph.  **`theorem C09 : C09_full`** — whatever sequence of add / update / remove /
@@ -39,7 +39,7 @@ and looked up with the larger of the two frequencies; `entries_exact_iff` and
 `shadowed_lookup_reports_larger` characterised the old behaviour exactly and are gone with it), and
 every theorem carried the precondition `OpOk` (no phrase text beginning with U+10FFFF, class
 **MaxCodePointPhrase**: the pending range ended at the exclusive bound `"\u{10FFFF}"`).  Both are
-regression examples now (`update_persisted_fixed`, `max_code_point_phrase_fixed`).  Until fix 097161a
+regression examples now (`update_persisted_fixed`, `max_code_point_phrase_fixed`).  Until fix c3d9fb2
 the prefix lookup carried the exclusion `fuzzyClass` (class **FuzzyOverTombstoneOrPending**, F36: prefix
 lookups scanned only the persisted leaves, added the pending entries of exactly the query and filtered
 pending keys / tombstones keyed by the QUERY) and the side condition `fuzzyMatch q q`; the full statement
@@ -131,7 +131,7 @@ theorem lookup_is_filtered_enumeration (s : State) (k : Key) (st : Strategy) :
   unfold TrieBuf.lookupAll; rw [entriesIterFor_uniform]
 
 /-- a candidate of a prefix lookup, layer by layer — each filter keyed by the key the phrase is stored
-    under (the query's key was used before fix 097161a) -/
+    under (the query's key was used before fix c3d9fb2) -/
 theorem fuzzy_candidates (s : State) (q : Key) (p : Phrase) :
     p ∈ entriesIterFor s q .fuzzyPartialPrefix ↔ ∃ key, fuzzyMatch key q = true ∧ (key, p.text) ∉ s.grave ∧
       (((∃ l ∈ s.snap, l.1 = key ∧ p ∈ l.2) ∧ ∀ w, ((key, p.text), w) ∉ s.btree) ∨
@@ -468,7 +468,7 @@ theorem first_phrase_sqlite (s : SqliteDict.State) (k : Key) (st : Strategy) :
     firstPhraseOf (fun n => SqliteDict.lookupFirstN s k n st) = (SqliteDict.lookupAll s k).head? :=
   first_phrase_is_head _ _ (fun _ => rfl)
 
-/-! ## 6. The full statement — a theorem since fix 097161a (F36) -/
+/-! ## 6. The full statement — a theorem since fix c3d9fb2 (F36) -/
 
 /-- the answers of a state are those of the map it denotes -/
 structure Answers (s : State) : Prop where
@@ -488,7 +488,7 @@ theorem inv_answers (s : State) (hs : Inv s) : Answers s :=
 
 /-- **C09 for `TrieBuf`, full strength**: every history, every state, in-memory or file-backed (flush,
     reopen with snapshot adoption, close-and-open included), all three kinds of answers, no excluded
-    class, no precondition.  (Refuted until fix 097161a: `C09_full_refuted` with the witnesses below.) -/
+    class, no precondition.  (Refuted until fix c3d9fb2: `C09_full_refuted` with the witnesses below.) -/
 theorem C09 : C09_full := by
   intro init hi ops
   have h := triebuf_refines init hi ops
@@ -525,7 +525,7 @@ theorem update_persisted_fixed :
     entries (run initFile witnessF10) = [(kCe4, { text := tCe, freq := 50, lastUsed := some 7 })] ∧
     abs (run initFile witnessF10) (kCe4, tCe) = some (50, 7) := by decide
 
-/-- F36 regression, pending half (fixed by 097161a; was `fuzzy_pending_refuted`): the pending phrase 測
+/-- F36 regression, pending half (fixed by c3d9fb2; was `fuzzy_pending_refuted`): the pending phrase 測
     under ㄘㄜˋ is live, matches the prefix ㄘ, and the prefix lookup returns it — before the fix the answer
     was empty until a snapshot had been adopted — in-memory and file-backed alike -/
 theorem fuzzy_pending_repaired :
@@ -535,7 +535,7 @@ theorem fuzzy_pending_repaired :
     IsFuzzyLookup fuzzyMatch (abs (run initMem witnessF36)) kC (lookupAll (run initMem witnessF36) kC .fuzzyPartialPrefix) :=
   ⟨by decide, by decide, by decide, by decide, (C09 initMem (Or.inl rfl) witnessF36).2.fuzzy kC⟩
 
-/-- F36 regression, tombstone half (fixed by 097161a; was `fuzzy_tombstone_witness`): after removing the
+/-- F36 regression, tombstone half (fixed by c3d9fb2; was `fuzzy_tombstone_witness`): after removing the
     persisted 測 the prefix lookup of ㄘ no longer returns it (before: `[測/100/2]`), in agreement with the
     exact lookup and the map; the state still holds the persisted leaf and the tombstone -/
 theorem fuzzy_tombstone_repaired :
@@ -567,7 +567,7 @@ theorem triebuf_refines_full (init : State) (hi : init = initMem ∨ init = init
 
 /-! ### 6a. The snapshot-adoption path
 
-Until fix 097161a the prefix lookup was only guaranteed in a `Settled` state (nothing pending, no
+Until fix c3d9fb2 the prefix lookup was only guaranteed in a `Settled` state (nothing pending, no
 tombstone) and these theorems said that the known-finding class is transient.  They remain as statements
 about adoption: `reopen; flush; reopen` / close-and-open always end settled, with the map unchanged. -/
 
@@ -624,7 +624,7 @@ theorem layered_history_file (sys : List Dict) (ops : List Op) (k : Key) :
   exact layered_over_map sys _ m k hlk
 
 /-- an in-memory dictionary has no persisted layer: the candidates of a prefix lookup are the pending
-    entries without a tombstone whose key matches, in `BTreeMap` order (before fix 097161a the prefix
+    entries without a tombstone whose key matches, in `BTreeMap` order (before fix c3d9fb2 the prefix
     lookup of an in-memory dictionary degenerated to the exact lookup of the query, `mem_fuzzy_is_exact`) -/
 theorem mem_fuzzy_candidates (s : State) (h : MemInv s) (q : Key) :
     entriesIterFor s q .fuzzyPartialPrefix =
